@@ -17,7 +17,7 @@ macro_rules! abstract_ty {
         pub struct $n<I: Interner> { _p: core::marker::PhantomData<I> }
     )* } }
 }
-abstract_ty!(Ty, Substitution, Const, ConcreteConst, Lifetime, DynTy, FnPointer, AdtId, AssocTypeId, OpaqueTyId, FnDefId, ClosureId, CoroutineId, ForeignDefId);
+abstract_ty!(Ty, Substitution, GenericArg, Const, ConcreteConst, Lifetime, DynTy, FnPointer, AdtId, AssocTypeId, OpaqueTyId, FnDefId, ClosureId, CoroutineId, ForeignDefId);
 #[verifier::external_body] pub struct Scalar { _p: () }
 #[verifier::external_body] pub struct Mutability { _p: () }
 #[verifier::external_body] pub struct InferenceVar { _p: () }
@@ -26,6 +26,7 @@ abstract_ty!(Ty, Substitution, Const, ConcreteConst, Lifetime, DynTy, FnPointer,
 //@CLONE_EQ generics="" type="Mutability"
 //@CLONE_EQ generics="I: Interner" type="ForeignDefId<I>"
 //@CLONE_EQ generics="" type="PlaceholderIndex"
+//@CLONE_EQ generics="I: Interner" type="Lifetime<I>"
 
 // real definitions (extracted)
 //@TYPE file=chalk-ir/src/lib.rs kind=struct name=UniverseIndex attrs="#[derive(Clone, Copy)]"
@@ -38,6 +39,7 @@ abstract_ty!(Ty, Substitution, Const, ConcreteConst, Lifetime, DynTy, FnPointer,
 //@TYPE file=chalk-ir/src/lib.rs kind=enum name=TyKind attrs="#[verifier::reject_recursive_types(I)]"
 //@TYPE file=chalk-ir/src/lib.rs kind=struct name=ConstData attrs="#[verifier::reject_recursive_types(I)]"
 //@TYPE file=chalk-ir/src/lib.rs kind=enum name=ConstValue attrs="#[verifier::reject_recursive_types(I)]"
+//@TYPE file=chalk-ir/src/lib.rs kind=enum name=GenericArgData attrs="#[verifier::reject_recursive_types(I)]"
 //@TYPE file=chalk-engine/src/slg.rs kind=struct name=MayInvalidate attrs="#[verifier::reject_recursive_types(I)]"
 
 // ---- abstract views
@@ -60,6 +62,39 @@ impl<I: Interner> Const<I> {
         ensures *r == const_data(*self), ty_height(r.ty) < const_height(*self),
             const_canonical(*self) ==> ty_canonical(r.ty) && !(r.value is InferenceVar),
     { unimplemented!() }
+}
+pub uninterp spec fn arg_data<I: Interner>(a: GenericArg<I>) -> GenericArgData<I>;
+pub uninterp spec fn arg_canonical<I: Interner>(a: GenericArg<I>) -> bool;
+impl<I: Interner> GenericArg<I> {
+    /// a canonical argument holds a canonical type / constant
+    #[verifier::external_body]
+    pub fn data(&self, interner: I) -> (r: &GenericArgData<I>)
+        ensures *r == arg_data(*self),
+            arg_canonical(*self) ==> match *r {
+                GenericArgData::Ty(t) => ty_canonical(t),
+                GenericArgData::Const(c) => const_canonical(c),
+                GenericArgData::Lifetime(_) => true,
+            },
+    { unimplemented!() }
+}
+/// one argument of a new answer is an instance of the guidance's argument
+pub open spec fn arg_instance<I: Interner>(new: GenericArg<I>, cur: GenericArg<I>) -> bool {
+    match (arg_data(new), arg_data(cur)) {
+        (GenericArgData::Ty(a), GenericArgData::Ty(b)) => ty_instance(a, b),
+        (GenericArgData::Const(c), GenericArgData::Const(d)) => const_instance(c, d),
+        // the pinned check never claims anything about lifetimes; the same lifetime is trivially an instance of itself
+        (GenericArgData::Lifetime(a), GenericArgData::Lifetime(b)) => a == b,
+        _ => false,
+    }
+}
+/// both arguments are of the same kind (the code panics otherwise: "mismatched parameter kinds")
+pub open spec fn same_kind<I: Interner>(a: GenericArg<I>, b: GenericArg<I>) -> bool {
+    match (arg_data(a), arg_data(b)) {
+        (GenericArgData::Ty(_), GenericArgData::Ty(_)) => true,
+        (GenericArgData::Lifetime(_), GenericArgData::Lifetime(_)) => true,
+        (GenericArgData::Const(_), GenericArgData::Const(_)) => true,
+        _ => false,
+    }
 }
 impl<I: Interner> ConcreteConst<I> {
     #[verifier::external_body]
@@ -139,6 +174,7 @@ pub open spec fn const_instance<I: Interner>(new: Const<I>, cur: Const<I>) -> bo
 
 // ------------------------------------------------------------- real functions
 impl<I: Interner> MayInvalidate<I> {
+//@FN file=chalk-engine/src/slg.rs within="^impl<I: Interner> MayInvalidate<I>$" fn=aggregate_generic_args contract=aggregate_generic_args path=MayInvalidate::aggregate_generic_args
 //@FN file=chalk-engine/src/slg.rs within="^impl<I: Interner> MayInvalidate<I>$" fn=aggregate_tys contract=aggregate_tys path=MayInvalidate::aggregate_tys
     // (`aggregate_lifetimes(&mut self, _: &Lifetime<I>, _: &Lifetime<I>) -> bool { true }` has `_` parameters, which the
     //  verus! macro rejects; its contract "always conservative" is stated here and not verified)
@@ -167,6 +203,10 @@ impl<I: Interner> MayInvalidate<I> {
         !r ==> ty_instance(*new, *current),
     decreases ty_height(*current),
 //@END
+//@CONTRACT aggregate_generic_args
+    requires arg_canonical(*new), arg_canonical(*current), same_kind(*new, *current),
+    ensures !r ==> arg_instance(*new, *current),
+//@END
 //@CONTRACT aggregate_consts
     requires const_canonical(*new), const_canonical(*current),
     ensures !r ==> const_instance(*new, *current),
@@ -185,6 +225,9 @@ impl<I: Interner> MayInvalidate<I> {
 //@END
 
 } // verus!
+impl<I: Interner> core::fmt::Debug for GenericArg<I> {
+    fn fmt(&self, _f: &mut core::fmt::Formatter<'_>) -> core::fmt::Result { Ok(()) }
+}
 impl<I: Interner> core::fmt::Debug for Const<I> {
     fn fmt(&self, _f: &mut core::fmt::Formatter<'_>) -> core::fmt::Result { Ok(()) }
 }
